@@ -204,3 +204,527 @@ def fires(summary, event, env) -> bool:
                 return True
         return False
     return rec(0, dict(env))
+
+
+# ------------------------------------------------------------------------------------------------------------------------------------
+# Interpreting whole summaries: a function of the package applied to model values
+#
+# `Machine(summaries, index).call(modname, fname, *args, **kwargs)` gives the value the function's SUMMARY returns for concrete model
+# arguments (or raises `ModelRaise(<exception name>)` when one of its raise events fires).  Calls of other in-package functions,
+# lambdas / local functions, partial applications, module-level tables and NamedTuple / dataclass records (fields, properties,
+# methods) are followed through their own summaries.  Side effects are not modelled: a summary that stores into something, or whose
+# terms mention loop-carried state, is outside the fragment (`Unknown`).
+
+class ModelRaise(Exception):
+    def __init__(self, name):
+        super().__init__(name)
+        self.name = name
+
+
+class _Record:
+    """a NamedTuple / dataclass / plain-class instance of the model: its class and its attribute values"""
+    def __init__(self, ci, fields, is_tuple):
+        self.ci, self.fields, self.is_tuple = ci, fields, is_tuple
+
+    def __iter__(self):
+        if not self.is_tuple:
+            raise Unknown("iteration over a non-tuple record")
+        return iter(self.fields.values())
+
+    def __getitem__(self, i):
+        if not self.is_tuple:
+            raise Unknown("subscript of a non-tuple record")
+        return list(self.fields.values())[i]
+
+    def __len__(self):
+        return len(self.fields)
+
+    def __eq__(self, other):
+        if isinstance(other, _Record):
+            return self.ci is other.ci and self.fields == other.fields
+        if self.is_tuple and isinstance(other, tuple):
+            return tuple(self.fields.values()) == other
+        return NotImplemented
+
+    def __hash__(self):
+        return hash(tuple(self.fields.values()))
+
+
+class _ClassRef:
+    """an in-package class as a value of the model: callable (construction), with its classmethods / staticmethods / `_make`"""
+    def __init__(self, machine, ci):
+        self.machine, self.ci = machine, ci
+
+    def __call__(self, *a, **kw):
+        return self.machine._construct(self.ci, list(a), kw)
+
+    def __eq__(self, other):
+        return isinstance(other, _ClassRef) and other.ci is self.ci
+
+    def __hash__(self):
+        return hash(self.ci.qual)
+
+
+class Machine:
+    def __init__(self, summaries, index, max_depth=12, stubs=None):
+        self.summ, self.index, self.max_depth = summaries, index, max_depth
+        self.depth = 0
+        self._tables = {}
+        self.stubs = stubs or {}  # "module:function" -> Python function standing for a library-backed function on model values
+
+    # -- entry points
+    def call(self, modname, fname, *args, **kwargs):
+        return self.apply_summary(self.summ.of_func(modname, fname), list(args), dict(kwargs), {})
+
+    def apply_summary(self, s, args, kwargs, closure, selfval=None):
+        if self.depth >= self.max_depth:
+            raise Unknown("call depth")
+        env = dict(closure)
+        params = list(s.params)
+        if selfval is not None:
+            if not params:
+                raise Unknown("method without self")
+            env[("param", params[0])] = selfval
+            params = params[1:]
+        if len(args) > len(params) and not s.vararg:
+            raise Unknown("too many arguments for the summary")
+        for p, a in zip(params, args):
+            env[("param", p)] = a
+        extra = args[len(params):]
+        if s.vararg:
+            env[("param", s.vararg)] = env[("param", "*" + s.vararg)] = tuple(extra)
+        rest = {}
+        for k, v in kwargs.items():
+            if k in params and ("param", k) not in env:
+                env[("param", k)] = v
+            elif s.kwarg:
+                rest[k] = v
+            else:
+                raise Unknown(f"unexpected keyword {k}")
+        if s.kwarg:
+            env[("param", s.kwarg)] = env[("param", "**" + s.kwarg)] = rest
+        for p in params:
+            if ("param", p) not in env:
+                if p not in s.defaults:
+                    raise Unknown(f"missing argument {p}")
+                env[("param", p)] = self.ev(s.defaults[p], {}, s)
+        self.depth += 1
+        try:
+            return self._run(s, env)
+        finally:
+            self.depth -= 1
+
+    def _run(self, s, env):
+        if s.is_generator:
+            out = []
+            self._walk(s, [e for e in s.events if e.kind in ("raise", "yield", "return", "break")], 0, env, out)
+            return out
+        if any(e.kind in ("store", "delete") and not self._local_store(e) for e in s.events):
+            raise Unknown("the summary has side effects")
+        res = self._walk(s, [e for e in s.events if e.kind in ("raise", "return")], 0, env, None)
+        if res is None:
+            if s.fall_live == ("const", False):
+                raise Unknown("no return fired")
+            return None
+        return res[1]
+
+    @staticmethod
+    def _local_store(e):
+        return False
+
+    def _walk(self, s, events, depth, env, yields):
+        """events (in program order) at loop nesting `depth`; -> ("return", value) / ("break",) / None (fell through)"""
+        i = 0
+        while i < len(events):
+            e = events[i]
+            if e.handlers or e.in_handler:
+                raise Unknown("event inside a try statement")
+            if len(e.loops) > depth:
+                lid = e.loops[depth]
+                j = i
+                while j < len(events) and len(events[j].loops) > depth and events[j].loops[depth] == lid:
+                    j += 1
+                li = s.loops[lid]
+                if li.kind == "while":
+                    raise Unknown("while loop")
+                for item in list(self.ev(li.iter, env, s)):
+                    e2 = dict(env)
+                    e2[("elem", lid)] = item
+                    e2[("inloop", lid)] = True
+                    if not all(self.ev(c, e2, s) for c in li.conds):
+                        continue
+                    r = self._walk(s, events[i:j], depth + 1, e2, yields)
+                    if r is not None:
+                        if r[0] == "break":
+                            break
+                        return r
+                i = j
+                continue
+            if self.ev(e.live, env, s):
+                if e.kind == "raise":
+                    t = e.term[1] if e.term[0] == "raise_from" else e.term
+                    name = t[1][1] if t[0] == "call" and t[1][0] in ("builtin", "ext", "global") else "Exception"
+                    raise ModelRaise(str(name).split(".")[-1].split(":")[-1])
+                if e.kind == "yield":
+                    if yields is None:
+                        raise Unknown("yield outside a generator run")
+                    if e.term[0] == "yieldfrom":
+                        yields.extend(list(self.ev(e.term[1], env, s)))
+                    else:
+                        yields.append(self.ev(e.term, env, s))
+                elif e.kind == "break":
+                    return ("break",)
+                elif e.kind == "return":
+                    return ("return", self.ev(e.term, env, s) if yields is None else None)
+            i += 1
+        return None
+
+    # -- terms
+    def ev(self, t, env, s):
+        if t in env:
+            return env[t]
+        if not isinstance(t, tuple) or not t or not isinstance(t[0], str):
+            raise Unknown(f"not a term: {str(t)[:60]}")
+        k = t[0]
+        if k == "loopout" and s is not None and len(t) == 3 and t[2] in s.loops:
+            return self._loopout(t[1], s.loops[t[2]], env, s)
+        if k == "lambda":
+            if s is None or t[1] not in s.lambdas:
+                raise Unknown("unknown local function")
+            ls, clo = s.lambdas[t[1]], dict(env)
+            return lambda *a, **kw: self.apply_summary(ls, list(a), kw, clo)
+        if k == "global":
+            return self._global(t)
+        if k == "builtin":
+            if t[1] in _BUILTINS:
+                return _BUILTINS[t[1]]
+            raise Unknown(f"builtin {t[1]}")
+        if k == "ext":
+            return self._ext(t[1])
+        if k == "attr":
+            base = self.ev(t[1], env, s)
+            return self._getattr(base, t[2])
+        if k == "call":
+            return self._call(t, env, s)
+        if k == "comp":
+            return self._comp(t, env, s)
+        # everything else: the structural cases of meval, with sub-terms evaluated here
+        return _structural(t, lambda x, e=env: self.ev(x, e, s), env)
+
+    def _loopout(self, name, li, env, s):
+        """the value a variable holds after a statement loop that re-assigns it: what it held before, updated once per iteration
+        (loops left by `break`, or whose state the engine did not record, are outside the fragment)"""
+        body, pre = getattr(li, "body_env", None), getattr(li, "pre_env", None)
+        if body is None or pre is None or li.kind != "for" or li.has_else:
+            raise Unknown("loop state not recorded")
+        if any(e.kind in ("break", "return", "raise") and li.id in e.loops for e in s.events):
+            raise Unknown("loop with an early exit")
+        names = [n for n in pre if pre[n] is not None]
+        if name not in names:
+            raise Unknown(f"{name} has no value in front of the loop")
+        cur = {n: self.ev(pre[n], env, s) for n in names}
+        for item in list(self.ev(li.iter, env, s)):
+            e2 = dict(env)
+            e2[("elem", li.id)] = item
+            e2[("inloop", li.id)] = True
+            for n in names:
+                e2[("phi", n, li.id)] = cur[n]
+            if not all(self.ev(c, e2, s) for c in li.conds):
+                continue
+            cur = {n: (self.ev(body[n], e2, s) if n in body else cur[n]) for n in names}
+        return cur[name]
+
+    def _comp(self, t, env, s):
+        kind, elt, gens = t[1], t[2], t[3]
+        out = []
+
+        def rec(i, e):
+            if i == len(gens):
+                out.append((self.ev(elt[1], e, s), self.ev(elt[2], e, s)) if elt[0] == "kv" else self.ev(elt, e, s))
+                return
+            lid, it, conds = gens[i]
+            for item in list(self.ev(it, e, s)):
+                e2 = dict(e)
+                e2[("elem", lid)] = item
+                e2[("inloop", lid)] = True
+                if all(self.ev(c, e2, s) for c in conds):
+                    rec(i + 1, e2)
+        rec(0, env)
+        return dict(out) if kind == "dict" else (set(out) if kind == "set" else list(out))
+
+    def _ext(self, name):
+        import functools
+        import operator
+        if name in _EXT:
+            return _EXT[name]
+        if name == "functools.reduce":
+            return functools.reduce
+        if name == "functools.partial":
+            return functools.partial
+        if name.startswith("operator.") and hasattr(operator, name.split(".", 1)[1]):
+            return getattr(operator, name.split(".", 1)[1])
+        if name in ("itertools.starmap", "itertools.takewhile", "itertools.dropwhile", "itertools.filterfalse", "itertools.islice",
+                    "itertools.accumulate", "itertools.zip_longest", "itertools.tee", "itertools.compress"):
+            return getattr(itertools, name.split(".")[1])
+        if name in ("math.floor", "math.ceil", "math.isclose", "math.inf", "math.nan", "math.fabs", "math.isnan", "math.isinf"):
+            import math
+            return getattr(math, name.split(".")[1])
+        raise Unknown(f"external name {name}")
+
+    def _global(self, t):
+        q, kind = t[1].replace("@reference", ""), t[2]
+        if ":" not in q:
+            raise Unknown(f"global {q}")
+        modname, name = q.split(":", 1)
+        if kind == "func" and q in self.stubs:
+            return self.stubs[q]
+        if kind == "func":
+            if "." in name:
+                cname, meth = name.split(".", 1)
+                ci = self.index.need_class(modname, cname)
+                ms = self.summ.of_method(ci, meth)
+                return lambda *a, **kw: self.apply_summary(ms, list(a), kw, {})
+            fs = self.summ.of_func(modname, name)
+            return lambda *a, **kw: self.apply_summary(fs, list(a), kw, {})
+        if kind == "class":
+            ci = self.index.class_by_qual(q)
+            if ci is None:
+                raise Unknown(f"class {q}")
+            return _ClassRef(self, ci)
+        if kind == "assign":
+            if q not in self._tables:
+                from .sym import Evaluator, TRUE
+                m, node = self.index.need_assign(modname, name)
+                v = Evaluator(self.index, m, node, f"{modname}:<module>", None).ev(node, TRUE)
+                self._tables[q] = self.ev(v, {}, None)
+            return self._tables[q]
+        raise Unknown(f"global of kind {kind}")
+
+    def _construct(self, ci, args, kw):
+        import ast as _ast
+        is_nt = any(b.split(".")[-1] == "NamedTuple" for b in ci.ext_bases)
+        is_dc = any(_ast.unparse(d).split("(")[0].split(".")[-1] == "dataclass" for d in ci.node.decorator_list)
+        if (is_nt or is_dc) and "__init__" not in ci.methods:
+            names, defaults = [], {}
+            for c in reversed(ci.mro()):
+                for st in c.node.body:
+                    if isinstance(st, _ast.AnnAssign) and isinstance(st.target, _ast.Name) and "ClassVar" not in _ast.unparse(st.annotation):
+                        if st.target.id not in names:
+                            names.append(st.target.id)
+                        if st.value is not None:
+                            defaults[st.target.id] = st.value
+            if len(args) > len(names):
+                raise Unknown("too many fields")
+            fields = dict(zip(names, args))
+            for k_, v_ in kw.items():
+                if k_ not in names or k_ in fields:
+                    raise Unknown(f"field {k_}")
+                fields[k_] = v_
+            for n_ in names:
+                if n_ not in fields:
+                    if n_ not in defaults:
+                        raise Unknown(f"missing field {n_}")
+                    from .sym import Evaluator, TRUE
+                    fields[n_] = self.ev(Evaluator(self.index, ci.module, defaults[n_], f"{ci.qual}.<default>", None).ev(defaults[n_], TRUE), {}, None)
+            rec = _Record(ci, {n_: fields[n_] for n_ in names}, is_nt)
+            if "__post_init__" in ci.methods:
+                raise Unknown("__post_init__")
+            return rec
+        if any(str(b).split(".")[-1] not in ("object", "ABC", "Protocol", "Generic") for b in ci.ext_bases):
+            raise Unknown(f"class {ci.name} with bases outside the package")
+        rec = _Record(ci, {}, False)
+        found = ci.find_method("__init__")
+        if found:
+            c_, fn = found
+            ms = self.summ.of_node(c_.module, fn, f"{c_.qual}.__init__", c_)
+            self._init(ms, rec, args, kw)
+        elif args or kw:
+            raise Unknown("arguments for a class without __init__")
+        return rec
+
+    def _init(self, ms, rec, args, kw):
+        """a constructor whose only effects are `self.x = <value>` under decidable conditions"""
+        env = {}
+        params = list(ms.params)
+        env[("param", params[0])] = rec
+        for p, a in zip(params[1:], args):
+            env[("param", p)] = a
+        for k_, v_ in kw.items():
+            env[("param", k_)] = v_
+        for p in params[1:]:
+            if ("param", p) not in env:
+                if p not in ms.defaults:
+                    raise Unknown(f"missing argument {p}")
+                env[("param", p)] = self.ev(ms.defaults[p], {}, ms)
+        for e in ms.events:
+            if e.loops or e.handlers or e.in_handler:
+                raise Unknown("constructor with loops / try")
+            if e.kind == "raise" and self.ev(e.live, env, ms):
+                t_ = e.term[1] if e.term[0] == "raise_from" else e.term
+                nm_ = t_[1][1] if t_[0] == "call" and t_[1][0] in ("builtin", "ext", "global") else "Exception"
+                raise ModelRaise(str(nm_).split(".")[-1].split(":")[-1])
+            if e.kind == "store":
+                tgt = e.term[1]
+                if not (tgt[0] == "attr" and tgt[1] == ("param", params[0])):
+                    raise Unknown("constructor stores elsewhere")
+                if self.ev(e.live, env, ms):
+                    rec.fields[tgt[2]] = self.ev(e.term[2], env, ms)
+
+    def _getattr(self, base, name):
+        if isinstance(base, _ClassRef):
+            import ast as _ast
+            if name == "_make" and any(str(b).split(".")[-1] == "NamedTuple" for b in base.ci.ext_bases):
+                return lambda it: base(*list(it))
+            found = base.ci.find_method(name)
+            if found:
+                c_, fn = found
+                ms = self.summ.of_node(c_.module, fn, f"{c_.qual}.{name}", c_)
+                decos = [_ast.unparse(d) for d in fn.decorator_list]
+                if "staticmethod" in decos:
+                    return lambda *a, **kw: self.apply_summary(ms, list(a), kw, {})
+                if "classmethod" in decos:
+                    return lambda *a, **kw: self.apply_summary(ms, list(a), kw, {}, selfval=base)
+                return lambda inst, *a, **kw: self.apply_summary(ms, list(a), kw, {}, selfval=inst)
+            raise Unknown(f"attribute {name} of class {base.ci.name}")
+        if isinstance(base, _Record):
+            if name in base.fields:
+                return base.fields[name]
+            found = base.ci.find_method(name)
+            if found:
+                import ast as _ast
+                c_, fn = found
+                ms = self.summ.of_node(c_.module, fn, f"{c_.qual}.{name}", c_)
+                decos = [_ast.unparse(d) for d in fn.decorator_list]
+                if "property" in decos or "cached_property" in decos or "functools.cached_property" in decos:
+                    return self.apply_summary(ms, [], {}, {}, selfval=base)
+                if "staticmethod" in decos:
+                    return lambda *a, **kw: self.apply_summary(ms, list(a), kw, {})
+                if "classmethod" in decos:
+                    return lambda *a, **kw: self.apply_summary(ms, list(a), kw, {}, selfval=_ClassRef(self, base.ci))
+                return lambda *a, **kw: self.apply_summary(ms, list(a), kw, {}, selfval=base)
+            if base.is_tuple and name in ("_replace", "_asdict"):
+                if name == "_asdict":
+                    return lambda: dict(base.fields)
+                return lambda **kw: _Record(base.ci, {**base.fields, **kw}, True)
+            raise Unknown(f"attribute {name} of a {base.ci.name}")
+        if isinstance(base, tuple) and name not in _METHODS:
+            # the engine carries NamedTuple records as plain tuples: the one record class of the package with that many fields that has
+            # this field / property / method
+            import ast as _ast
+            cands = []
+            for c in self.index.all_classes():
+                if any(str(b).split(".")[-1] == "NamedTuple" for b in c.ext_bases):
+                    fields = [st.target.id for st in c.node.body if isinstance(st, _ast.AnnAssign) and isinstance(st.target, _ast.Name)]
+                    if len(fields) == len(base) and (name in fields or name in c.methods):
+                        cands.append((c, fields))
+            if len(cands) == 1:
+                c, fields = cands[0]
+                return self._getattr(_Record(c, dict(zip(fields, base)), True), name)
+            raise Unknown(f"attribute {name} of tuple")
+        if isinstance(base, _CONTAINERS) or isinstance(base, (str, int, float)):
+            if name in _METHODS or (isinstance(base, str) and name in ("lower", "upper", "strip", "split", "startswith", "endswith", "format", "join")):
+                return getattr(base, name)
+            raise Unknown(f"attribute {name} of {type(base).__name__}")
+        if callable(base) and not hasattr(base, name):
+            raise Unknown(f"attribute {name} of a function")
+        if hasattr(base, name):
+            return getattr(base, name)
+        raise Unknown(f"attribute {name}")
+
+    def _call(self, t, env, s):
+        f, args, kws = t[1], t[2], t[3]
+        a = []
+        for x in args:
+            if x[0] == "star":
+                a += list(self.ev(x[1], env, s))
+            else:
+                a.append(self.ev(x, env, s))
+        kw = {}
+        for n, v in kws:
+            if n == "**":
+                kw.update(self.ev(v, env, s))
+            elif v == ("absent",):
+                continue
+            else:
+                kw[n] = self.ev(v, env, s)
+        fn = self.ev(f, env, s)
+        if not callable(fn):
+            raise Unknown(f"call of a non-function: {str(f)[:60]}")
+        try:
+            return fn(*a, **kw)
+        except (Unknown, ModelRaise):
+            raise
+        except Exception as e:  # noqa: BLE001 - the model does not support the operation
+            raise Unknown(f"call fails in the model: {e!r}") from None
+
+
+def _structural(t, ev, env):
+    """the cases of meval that only combine the values of sub-terms (shared with Machine.ev)"""
+    k = t[0]
+    if k == "const":
+        return t[1]
+    if k == "sub":
+        base, idx = ev(t[1]), ev(t[2])
+        try:
+            return base[idx]
+        except (KeyError, IndexError, TypeError) as e:
+            raise Unknown(f"subscript fails in the model: {e!r}") from None
+    if k in ("tuple", "list", "set"):
+        out = []
+        for x in t[1]:
+            if x[0] == "star":
+                out += list(ev(x[1]))
+            else:
+                out.append(ev(x))
+        return tuple(out) if k == "tuple" else (list(out) if k == "list" else set(out))
+    if k == "dict":
+        d = {}
+        for kk, vv in t[1]:
+            if kk == ("dstar",):
+                d.update(ev(vv))
+            else:
+                d[ev(kk)] = ev(vv)
+        return d
+    if k == "not":
+        return not ev(t[1])
+    if k in ("and", "or"):
+        # path conditions are conjunctions the engine may have re-ordered (a comparison in front of the None test that guards it):
+        # a conjunct that cannot be evaluated does not matter when another one decides
+        decisive, last, failed = (k == "or"), (k == "and"), None
+        for x in t[1]:
+            try:
+                v = ev(x)
+            except Unknown as e:
+                failed = e
+                continue
+            if bool(v) == decisive:
+                return v
+            last = v
+        if failed is not None:
+            raise failed
+        return last
+    if k == "ite":
+        return ev(t[2]) if ev(t[1]) else ev(t[3])
+    if k == "cmp":
+        if t[1] not in _CMP:
+            raise Unknown(f"comparison {t[1]}")
+        try:
+            return _CMP[t[1]](ev(t[2]), ev(t[3]))
+        except TypeError as e:
+            raise Unknown(f"comparison fails in the model: {e!r}") from None
+    if k == "bin":
+        if t[1] not in _BIN:
+            raise Unknown(f"operator {t[1]}")
+        try:
+            return _BIN[t[1]](ev(t[2]), ev(t[3]))
+        except (TypeError, ZeroDivisionError) as e:
+            raise Unknown(f"operator fails in the model: {e!r}") from None
+    if k == "neg":
+        return -ev(t[1])
+    if k == "slice":
+        return slice(*[ev(x) for x in t[1:4]])
+    if k == "fstr":
+        return "".join(x[1] if x[0] == "const" and isinstance(x[1], str) else format(ev(x)) for x in t[1])
+    if k == "error":
+        raise ModelRaise(str(t[1]))
+    raise Unknown(f"term kind {k}")
